@@ -149,6 +149,9 @@ func rqRun(which string) func(c *core.Ctx) {
 	return func(c *core.Ctx) {
 		var evals, distinct atomic.Int64
 		inst, exh := 0, 0
+		// first use of every instantiation: sequentially, in a fixed order, before anything else converts
+		fixed := func(s, d int) bool { return dyn.Types[s].Kind != dyn.Float && dyn.Types[d].Kind != dyn.Float }
+		digests := ctxDigests(fixed)
 		for _, sd := range instOrder() {
 			{
 				s, d := sd[0], sd[1]
@@ -251,13 +254,12 @@ func rqRun(which string) func(c *core.Ctx) {
 		}
 		c.Set("evaluations", evals.Load())
 		c.Set("distinct_nontrivial", distinct.Load())
-		fixed := func(s, d int) bool { return dyn.Types[s].Kind != dyn.Float && dyn.Types[d].Kind != dyn.Float }
 		judge := func(s, d int, in, out uint64) (string, string) {
 			ts, td := dyn.Types[s], dyn.Types[d]
 			return rqOracle(which, ts.Bits, td.Bits, rawToAmp(ts.Kind, ts.Bits, in), rawToAmp(td.Kind, td.Bits, out))
 		}
 		// C06's order clause works both ways for equal inputs: equal samples must give equal results
-		digests := ctxRun(c, which, judge, which == "C06", fixed)
+		ctxPasses(c, which, judge, which == "C06", fixed)
 		c.Set("ctx_digests", digests)
 		if res := c.ReverseOrderPass("mc-shim"); res != nil && which == "C06" {
 			ctxCompareDigests(c, digests, res.Digests)
